@@ -156,6 +156,25 @@ func addVocab(m map[string]Intrinsic) {
 	m["vocab.vPanics"] = func(vm *VM, fn *ssa.Function, args []Value) Value {
 		return mkBool(vm.catchPanic(args[0]) != nil)
 	}
+	// vBlocks(f) bool: f, run on the calling thread, cannot make progress (it waits for a
+	// channel or a lock that nobody left in this history will ever serve)
+	m["vocab.vBlocks"] = func(vm *VM, fn *ssa.Function, args []Value) (res Value) {
+		saved, savedDepth, savedStack := vm.cur, vm.depth, len(vm.panicStack)
+		defer func() {
+			if r := recover(); r != nil {
+				bs, ok := r.(*blockedSignal)
+				if !ok {
+					panic(r)
+				}
+				vm.note("blocked: " + bs.what)
+				vm.cur, vm.depth = saved, savedDepth
+				vm.panicStack = vm.panicStack[:savedStack]
+				res = tTrue
+			}
+		}()
+		vm.callValue(args[0], nil, nil)
+		return tFalse
+	}
 	m["vocab.vRunPending"] = func(vm *VM, fn *ssa.Function, args []Value) Value {
 		return mkBV(64, uint64(vm.runPendingGoroutines()))
 	}
